@@ -56,6 +56,7 @@ enum slu_mt_verif_kind {
     SLU_EV_PRUNE_MID,     /* a = jcol, b = irep ; xprune set, ispruned not yet */
     SLU_EV_PRUNE_END,     /* a = jcol, b = irep                                */
     SLU_EV_STACK,         /* a = op, b = bytes, c = which_end, ptr = &stack    */
+    SLU_EV_PRUNE_STEP,    /* a = jcol, b = irep, c = kmin ; inside one interchange of the partition */
     SLU_EV__COUNT
 };
 
